@@ -56,6 +56,8 @@ class Gen:
         want = "u" if ty == "u" else "b"
         if c < 0.30:
             cands = [k for k, v in BIN.items() if v[3] == want and self.ok(v[4]) and (self.f["bytes"] or "b" not in v[2])]
+            if not cands:
+                return self.leaf(ty, scope)
             k = r.choice(cands)
             t1, t2 = BIN[k][2]
             a, b = self.expr(t1, depth - 1, scope), self.expr(t2, depth - 1, scope)
@@ -70,6 +72,8 @@ class Gen:
             return ("bin", k, a, b)
         if c < 0.45:
             cands = [k for k, v in NARY.items() if v[3] == want]
+            if not cands:
+                return self.leaf(ty, scope)
             k = r.choice(cands)
             n = r.randrange(2, 5)
             return ("nary", k, [self.expr(NARY[k][2], depth - 1, scope) for _ in range(n)])
